@@ -2,7 +2,7 @@
 //! identities, evaluated on the contents the session is known to believe.
 
 use crate::content::{Class, Content};
-use crate::world::{Effective, MISSING, Model, SLOTS, Side};
+use crate::world::{Effective, Model, SLOTS, Side, never_loads};
 use std::collections::{BTreeMap, BTreeSet};
 use std::sync::Arc;
 use zydeco_session::{SourceGraph, SourceLoadError};
@@ -61,7 +61,7 @@ impl Reference {
                             reference.external = true;
                         }
                         for import in &content.imports {
-                            if import.slot == MISSING {
+                            if never_loads(import.slot) {
                                 reference.problems.push(format!("{} imports a missing file", SLOTS[slot]));
                             } else {
                                 reference.imports.push((slot, import.slot));
